@@ -105,8 +105,19 @@ def x_geom(p):
                 pos.append(_int(positions[w]))
             except Exception:
                 pos.append(-1)
+    badcols = []
+    for rr in sorted({0, idrows - 1}):
+        for ident in (f"{chr(65 + rr)}00", f"{chr(65 + rr)}0", f"{chr(65 + rr)}000", f"{chr(65 + rr)}{C + 1:02d}", f"{chr(65 + rr)}{C + 9}"):
+            one = {"id": ident, "evo": -1, "fluent": -1}
+            for key, mod in (("evo", eu), ("fluent", fu)):
+                try:
+                    one[key] = _int(mod.get_well_position(lw, ident), bad=-2)
+                except Exception:
+                    one[key] = -1
+            badcols.append(one)
     rec = {
         "fn": "geom",
+        "badcols": badcols,
         "id": f"{'T' if V else 'P'}{R}x{C}v{V}" + ("/labware" if p.get("via") == "labware" else ""),
         "rows": R,
         "cols": C,
